@@ -96,6 +96,20 @@ func (f *frameSink) RemoteAddr() net.Addr               { return &net.TCPAddr{} 
 func (f *frameSink) SetReadDeadline(t time.Time) error  { return nil }
 func (f *frameSink) SetWriteDeadline(t time.Time) error { return nil }
 
+// publishSized pads the payload with dots to the given size (the id stays the part before the first dot).
+func publishSized(w io.Writer, pub, k, size int) error {
+	id := fmt.Sprintf("%c%d", 'a'+pub, k)
+	if size > len(id) {
+		id += strings.Repeat(".", size-len(id))
+	}
+	p := mqtt.Publish{Header: mqtt.Header{QOS: 0}, Topic: []byte("ch/"), Payload: []byte(id)}
+	_, err := p.EncodeTo(w)
+	return err
+}
+
+// largeSizes: payload sizes just above the power-of-two thresholds at which buffered writers change strategy.
+var largeSizes = []int{1100, 4200, 8300, 60000}
+
 func publish(w io.Writer, pub, k int) error {
 	p := mqtt.Publish{Header: mqtt.Header{QOS: 0}, Topic: []byte("ch/"), Payload: []byte(fmt.Sprintf("%c%d", 'a'+pub, k))}
 	_, err := p.EncodeTo(w)
@@ -112,7 +126,11 @@ func parseStream(b []byte) (payloads []string, err string) {
 		if p.Type != session.PUBLISH || p.Topic != "ch/" {
 			return payloads, fmt.Sprintf("torn-packet: unexpected packet %v", p)
 		}
-		payloads = append(payloads, string(p.Payload))
+		id := string(p.Payload)
+		if i := strings.IndexByte(id, '.'); i >= 0 {
+			id = id[:i] // padded payload of the large-packet scenarios
+		}
+		payloads = append(payloads, id)
 		b = b[n:]
 	}
 	return payloads, ""
@@ -204,6 +222,33 @@ func scenarios() map[string]*sched.Scenario {
 			})
 		},
 		Check: func(x *sched.Exec) (string, string) { return verdict(x, 2, 2) },
+	}
+
+	// 1c. a large packet behind a queued small one of the same publisher: whatever path large writes take
+	// (direct, split, buffered) they must stay behind what the publisher sent before
+	for _, size := range largeSizes {
+		size := size
+		name := fmt.Sprintf("plain-large-%d", size)
+		m[name] = &sched.Scenario{
+			Name: name, Files: []string{"internal/network/listener/conn.go"},
+			Body: func(s *sched.Sched) {
+				sock := &recSock{}
+				conn := listener.VerifNewConn(sock, 60)
+				yes := true
+				forced = &yes
+				publish(conn, 0, 0)
+				forced = nil
+				s.Go("P0", func() { publishSized(conn, 0, 1, size) })
+				s.Go("P1", func() { publishSized(conn, 1, 0, size/2); publish(conn, 1, 1) })
+				s.Go("F", func() { conn.Flush() })
+				s.AtEnd(func() {
+					conn.Flush()
+					ps, e := parseStream(sock.stream())
+					s.Obs("%s|%s|pending=%d", strings.Join(ps, " "), e, conn.Len())
+				})
+			},
+			Check: func(x *sched.Exec) (string, string) { return verdict(x, 2, 2) },
+		}
 	}
 
 	// 2. websocket transport: one message per Write
@@ -312,7 +357,7 @@ func verdict(x *sched.Exec, npub, nmsg int) (string, string) {
 	return "", ""
 }
 
-var order = []string{"plain", "plain-prequeued", "websocket", "ws-over-buffered", "encode-pool"}
+var order = []string{"plain", "plain-prequeued", "plain-large-1100", "plain-large-4200", "plain-large-8300", "plain-large-60000", "websocket", "ws-over-buffered", "encode-pool"}
 
 func worker(c *core.Ctx, args []string) {
 	var bound, shard, n int
